@@ -778,7 +778,7 @@ func (g *genState) field(depth int) (zapcore.Field, SX) {
 			g.esc = true
 		}
 	}
-	t := r.Intn(23)
+	t := r.Intn(24)
 	if depth <= 0 && t >= 15 && t <= 17 {
 		t = r.Intn(15)
 	}
@@ -905,6 +905,25 @@ func (g *genState) field(depth int) (zapcore.Field, SX) {
 			}
 		}
 		return zap.Stringers(k, vals), L(I(17), B(key), L(L(xs...), L(), Bool(true)))
+	case 23:
+		// zap.Errors: zap's own array wrapper; every non-nil element is an object holding exactly what
+		// zap.Error(e) adds (key "error", plus errorVerbose / errorCauses / errorError as the error demands),
+		// nil elements are skipped
+		g.nested = true
+		g.fault = true
+		n := r.Intn(4)
+		var errs []error
+		var xs []SX
+		for i := 0; i < n; i++ {
+			if r.Chance(20) {
+				errs = append(errs, nil)
+				continue
+			}
+			e, x := genErr(r, 2)
+			errs = append(errs, e)
+			xs = append(xs, L(I(10), L(L(L(I(14), Str("error"), x)), L())))
+		}
+		return zap.Errors(k, errs), L(I(17), B(key), L(L(xs...), L(), Bool(true)))
 	default:
 		g.nested = true
 		m, x := g.arrm(depth)
